@@ -16,6 +16,7 @@ import numpy
 
 from collada.common import DaeObject, E, tag
 from collada.common import DaeIncompleteError, DaeMalformedError, DaeUnsupportedError
+from collada.util import _setAttribute
 
 
 class InputList(object):
@@ -178,15 +179,19 @@ class FloatSource(Source):
         node = self.xmlnode.find(tag('float_array'))
         node.text = txtdata
         node.set('count', str(rawlen))
-        node.set('id', self.id + '-array')
+        # a source without id keeps the id its array was loaded with
+        arrayid = node.get('id') if self.id is None else self.id + '-array'
+        _setAttribute(node, 'id', arrayid)
         node = self.xmlnode.find('%s/%s' % (tag('technique_common'), tag('accessor')))
         node.clear()
         node.set('count', str(acclen))
-        node.set('source', '#' + self.id + '-array')
+        _setAttribute(node, 'source', None if arrayid is None else '#' + arrayid)
         node.set('stride', str(len(self.components)))
         for c in self.components:
-            node.append(E.param(type='float', name=c))
-        self.xmlnode.set('id', self.id)
+            param = E.param(type='float')
+            _setAttribute(param, 'name', c)
+            node.append(param)
+        _setAttribute(self.xmlnode, 'id', self.id)
 
     @staticmethod
     def load(collada, localscope, node):
@@ -298,15 +303,19 @@ class IDRefSource(Source):
         node = self.xmlnode.find(tag('IDREF_array'))
         node.text = txtdata
         node.set('count', str(rawlen))
-        node.set('id', self.id + '-array')
+        # a source without id keeps the id its array was loaded with
+        arrayid = node.get('id') if self.id is None else self.id + '-array'
+        _setAttribute(node, 'id', arrayid)
         node = self.xmlnode.find('%s/%s' % (tag('technique_common'), tag('accessor')))
         node.clear()
         node.set('count', str(acclen))
-        node.set('source', '#' + self.id + '-array')
+        _setAttribute(node, 'source', None if arrayid is None else '#' + arrayid)
         node.set('stride', str(len(self.components)))
         for c in self.components:
-            node.append(E.param(type='IDREF', name=c))
-        self.xmlnode.set('id', self.id)
+            param = E.param(type='IDREF')
+            _setAttribute(param, 'name', c)
+            node.append(param)
+        _setAttribute(self.xmlnode, 'id', self.id)
 
     @staticmethod
     def load(collada, localscope, node):
@@ -405,15 +414,19 @@ class NameSource(Source):
         node = self.xmlnode.find(tag('Name_array'))
         node.text = txtdata
         node.set('count', str(rawlen))
-        node.set('id', self.id + '-array')
+        # a source without id keeps the id its array was loaded with
+        arrayid = node.get('id') if self.id is None else self.id + '-array'
+        _setAttribute(node, 'id', arrayid)
         node = self.xmlnode.find('%s/%s' % (tag('technique_common'), tag('accessor')))
         node.clear()
         node.set('count', str(acclen))
-        node.set('source', '#' + self.id + '-array')
+        _setAttribute(node, 'source', None if arrayid is None else '#' + arrayid)
         node.set('stride', str(len(self.components)))
         for c in self.components:
-            node.append(E.param(type='Name', name=c))
-        self.xmlnode.set('id', self.id)
+            param = E.param(type='Name')
+            _setAttribute(param, 'name', c)
+            node.append(param)
+        _setAttribute(self.xmlnode, 'id', self.id)
 
     @staticmethod
     def load(collada, localscope, node):
